@@ -284,6 +284,10 @@ class ParallelTemperedChain(BaseChain):
             raise ValueError("all betas must be in range [0, 1]")
         # sort from coldest to hottest and store
         self._betas = numpy.sort(betas)[::-1]  # note: this copies the betas
+        # if the ladder is replaced after the temperature levels were created,
+        # the levels have to sample at the new betas
+        for chain, beta in zip(getattr(self, 'chains', []), self._betas):
+            chain.beta = beta
 
     @property
     def temperatures(self):
